@@ -402,6 +402,9 @@ class DescriptorTransaction(_TransactionBase):
             # parent is updated in this transaction anyway: its version is already incremented and it is
             # reported once; a second entry with the same version but other content must not be published.
             return
+        if any(d.Handle == descriptor_container.parent_handle for d in proc.descr_updated):
+            # parent version was already incremented (and reported) for another child in this transaction
+            return
         parent_descriptor_container = self._mdib.descriptions.handle.get_one(
             descriptor_container.parent_handle, allow_none=True)
         if parent_descriptor_container is not None:
